@@ -279,6 +279,11 @@ func TestZsimC07(t *testing.T) {
 
 func c07Run(r *zsim.Run) {
 	sc := c07Gen(r)
+	if r.Fault.Intn(4) == 3 {
+		// some runs also stall tasks at arbitrary scheduling points (pre-emption / GC pause) for up to 40 ms of virtual time
+		r.StallOdds = 300
+		r.StallUnit = time.Millisecond
+	}
 	st := &c07State{r: r, sc: sc, mapped: map[int]int{}, written: map[int]int{}, reduced: map[int]int{}, ctxDoneAt: -1}
 	r.Logf("scenario entry=%s workers=%d items=%+v genSleep=%d genPanic=%d red=(mode %d m %d writes %d) ctx=(%d %v)",
 		c07Entries[sc.entry], sc.workers, sc.items, sc.genSleep, sc.genPanic, sc.redMode, sc.redM, sc.redWrites, sc.ctxKind, sc.ctxAt)
